@@ -258,6 +258,7 @@ func (vc *VC) run() {
 			st.assume(t)
 		}
 	}
+	vc.evalExcuses(st)
 	vc.runGhost(st, "entry", "", 0)
 	st.enter(fn.Blocks[0], nil)
 }
@@ -352,6 +353,14 @@ func (st *State) enter(b *ssa.BasicBlock, pred *ssa.BasicBlock) {
 				st.oblige(kind, lname+"."+lbl, ec.evalBool(g), g.String())
 			}
 		}
+		if st.fr.parent == nil || true {
+			for _, g := range st.frameGoals(st.topNames(), nil) {
+				if g.label == allocKey {
+					continue
+				}
+				st.oblige(kind, lname+".frame."+g.label, g.goal, g.info)
+			}
+		}
 		decs := vc.loopClauses(lkey, li.ord, "loop-decreases")
 		if isBack {
 			for _, c := range decs {
@@ -400,6 +409,13 @@ func (st *State) enter(b *ssa.BasicBlock, pred *ssa.BasicBlock) {
 					vc.pendingHavoc(st, k)
 				}
 			}
+		}
+		// the function's frame condition is an implicit loop invariant: re-assume it for the havocked keys
+		for _, g := range st.frameGoals(st.topNames(), nil) {
+			if g.label == allocKey {
+				continue
+			}
+			st.assume(g.goal)
 		}
 		// local cells assigned in the loop
 		vc.havocLocalsInLoop(st, li)
@@ -572,14 +588,14 @@ func (st *State) doReturn(in *ssa.Return) {
 			v = TupleV{res}
 		}
 		st.fr.vals[fr.retInst] = v
-		st.vc.runGhost(st, "after call", calleeName(fr.retInst.Common()), st.vc.callOrd[fr.retInst])
+		st.vc.runGhost(st, "after call", calleeName(fr.retInst.Common()), st.vc.callOrd[fr.retInst], v)
 		st.runFrom(fr.retBlk, fr.retIdx)
 		return
 	}
 	vc := st.vc
 	vc.retPaths++
 	vc.feasLines = append(vc.feasLines, st.lines)
-	vc.runGhost(st, "at return", "", 0)
+	vc.runGhost(st, "at return", "", 0, TupleV{res})
 	if vc.fc == nil {
 		return
 	}
@@ -611,6 +627,7 @@ func (st *State) doReturn(in *ssa.Return) {
 			st.oblige("post", lbl, ec.evalBool(g), g.String())
 		}
 	}
+	st.frameCheck(names)
 	for _, c := range vc.fc.clauses("unreachable") {
 		if strings.HasPrefix(c.Text, "return#") {
 			var k int
@@ -1348,4 +1365,13 @@ func ptrToArray(t types.Type) *types.Array {
 		}
 	}
 	return nil
+}
+
+// topNames: parameter names of the function under contract (outermost frame).
+func (st *State) topNames() map[string]Val {
+	fr := st.fr
+	for fr.parent != nil {
+		fr = fr.parent
+	}
+	return fr.names
 }
